@@ -106,7 +106,11 @@ func (c *Ctx) ruleA4(rule string, fn *ssa.Function, isWorker func(*ssa.Call) boo
 				c.Check(rule, key+"/element", false, fo.worker.Pos(), "the goroutine does not execute the element of the loop that starts it (receiver: %s)", x.Describe(recv))
 			} else {
 				// the captured cell must be allocated per iteration
-				cell := x.directCell(recv)
+				cellOf := recv
+				if ta, isTA := cellOf.(*ssa.TypeAssert); isTA && !ta.CommaOk {
+					cellOf = ta.X // the element travelled as an interface value (A0 2g)
+				}
+				cell := x.directCell(cellOf)
 				perIter := cell != nil && fo.loop.Blocks[cell.Block()] && cell.Parent() == g.Parent()
 				c.Check(rule, key+"/element", perIter, fo.worker.Pos(), "goroutine executes the element of %s through a per-iteration copy (a direct capture of the loop variable is shared by all goroutines under go 1.13 semantics)", x.Describe(fo.ranged))
 			}
